@@ -1058,7 +1058,8 @@ def gen_file(rng, n_schemas=None, size=3):
 def mf_undef_schema(f, rng):
     # only in a schema nobody imports from: importing from a schema that failed pass 1 is a different story (and crashes
     # when the failed clause was a whole-schema USE: SCOPEfind_for_rename does not skip the NULL entry)
-    c = [(s, i) for s in f.schemas for i in s.ifaces]
+    imported = {i.schema for s in f.schemas for i in s.ifaces}
+    c = [(s, i) for s in f.schemas for i in s.ifaces if s.name not in imported]
     if not c:
         return None
     s, i = rng.choice(c)
